@@ -2,6 +2,7 @@ import Sismic.Proofs.Edit
 import Sismic.Proofs.Rename
 import Sismic.Proofs.EquivPlan
 import Sismic.Proofs.EquivRun
+import Sismic.Proofs.PyRename
 import Sismic.Props.C07
 import Sismic.Props.C02
 /-!
@@ -13,10 +14,14 @@ renaming a state to its own name is a no-op; and the whole statechart after `ren
 the statechart with `b` substituted for `a` everywhere (`Chart.mapNames`), declared in another
 order (`rename_is_substitution`) — so, by C07, it *behaves* exactly as the substituted statechart
 (`renamed_behaves_as_substituted`: same macro steps, same exception at the same step, for every
-evaluator that does not read the history memory).  What remains for the tie (lock-step execution
-of original and renamed / host and guest against each other and against the interpreter model) is
-the equivariance of the interpreter under the substitution itself, and `copy_from_statechart`;
-see DESIGN.md §7 C17 (`_partial`).
+evaluator that does not read the history memory).  The interpreter itself is equivariant under the
+substitution: every decision it takes from names and every effectful function commute with an
+order-preserving relabelling (`renaming_commutes_with_execute_once`, `_with_execution`,
+`rename_state_preserves_behaviour`) for evaluators and listeners that cannot tell the names apart
+— a theorem for the modelled `PythonEvaluator` on statecharts whose code never calls `active`
+(`python_runs_commute_with_renaming`, `rename_state_preserves_python_behaviour`).  What remains
+for the tie (lock-step execution of host and guest against each other and against the interpreter
+model) is `copy_from_statechart`; see DESIGN.md §7 C17 (`_partial`).
 -/
 namespace Sismic.C17
 open Sismic.Chart
@@ -208,12 +213,110 @@ example : EnvR exRho id (fun _ _ => True) exS (exEnv exChart) (exEnv (exChart.ma
   initial := by simp [exChart, exEnv, exS]
   ignore := rfl
   fuel := rfl
-  guard := fun _ _ _ _ _ _ _ => rfl
-  cond := fun _ _ _ _ _ _ _ _ _ => rfl
-  exec := fun _ _ _ _ _ _ _ => ⟨rfl, trivial⟩
+  guard := fun _ _ _ _ _ _ _ _ => rfl
+  cond := fun _ _ _ _ _ _ _ _ _ _ => rfl
+  exec := fun _ _ _ _ _ _ _ _ => ⟨rfl, trivial⟩
   freeze := fun _ _ _ _ _ => trivial
   deliver := fun _ _ _ _ _ _ => rfl
 end Example
+
+/-! ### the evaluator the library ships
+
+The hypothesis "the evaluator cannot tell the names apart" of the theorems above, discharged for the
+model of `PythonEvaluator` (`Sismic.Model.Py`): `active(...)` is the only thing exposed to the code
+of a statechart that depends on state names; code which never calls it evaluates and executes the
+same under every configuration (`eval_config`, `exec_config` — by induction over the evaluator, which
+is a total function), and the entry / idle times and `__old__` snapshots are found under the
+relabelled keys. -/
+
+/-- **Statecharts run by the Python evaluator**: if no code of the statechart calls `active`, the
+    relabelled statechart produces, for every input history, the original run with the names
+    substituted — call by call, ending, if at all, with the same exception at the same call. -/
+theorem python_runs_commute_with_renaming {S : Name → Prop} {ρ : Name → Name} (ι : Nat → Nat)
+    (env env' : Env PyCtx ω) (hok : RenOK S ρ) (hren : IsRen ρ ι env.chart env'.chart) (hnames : NamesIn S env.chart)
+    (hinit : ∀ s ∈ env.chart.states, ∀ i, s.initial = some i → S i)
+    (hinj : ∀ i j, i ∈ env.chart.transitions.map (·.id) → j ∈ env.chart.transitions.map (·.id) → ι i = ι j → i = j)
+    (hna : env.chart.NoActive)
+    (hE : env.E = pyEvaluator) (hE' : env'.E = pyEvaluator) (hi : env'.ignoreContract = env.ignoreContract)
+    (hf : env'.stabFuel = env.stabFuel)
+    (hd : ∀ l m m' t w, MetaR ρ m m' → env'.deliver l m' t w = env.deliver l m t w)
+    (clocks : List Int) (rs : RS PyCtx ω) (out : List (Except Err (Option MacroStep))) (hrun : C07.Run env clocks rs out)
+    (rs' : RS PyCtx ω) (hr : RSR ρ ι (PyRen ρ ι S env.chart) rs rs') (hg : GoodSt S rs.st) :
+    ∃ out', C07.Run env' clocks rs' out' ∧ List.Forall₂ (OutcomeR ρ ι) out out' :=
+  renaming_commutes_with_execution
+    (pyEnvR_rename ι env env' hok hren hnames hinit hinj hna hE hE' hi hf hd) clocks rs out hrun rs' hr hg
+
+/-- **`rename_state` preserves the behaviour of statecharts run by the Python evaluator**: `env`
+    runs `c`, `env₂` the statechart `rename_state(a, b)` left behind, both with `PythonEvaluator`
+    and listeners that cannot tell the names apart.  If no code of `c` calls `active` and `b` takes
+    the place of `a` in the order of the names, the renamed statechart produces, for every input
+    history, the original run with `b` for `a`. -/
+theorem rename_state_preserves_python_behaviour {S : Name → Prop}
+    (c : Chart) (a b : Name) (ht : Tidy c) (hren : (c.renameState a b).1 = .ok ()) (hne : a ≠ b)
+    (env env₂ : Env PyCtx ω) (h1 : env.chart = c) (h2 : env₂.chart = (c.renameState a b).2)
+    (hok : RenOK S (renameIn a b)) (hnames : NamesIn S c)
+    (hinit : ∀ s ∈ c.states, ∀ i, s.initial = some i → S i) (hna : c.NoActive)
+    (hE : env.E = pyEvaluator) (hE₂ : env₂.E = pyEvaluator) (hi : env₂.ignoreContract = env.ignoreContract)
+    (hf : env₂.stabFuel = env.stabFuel)
+    (hd : ∀ l m m' t w, MetaR (renameIn a b) m m' → env₂.deliver l m' t w = env.deliver l m t w)
+    (hw : WFChart (c.mapNames (renameIn a b)))
+    (clocks : List Int) (rs : RS PyCtx ω) (out : List (Except Err (Option MacroStep))) (hrun : C07.Run env clocks rs out)
+    (rs₂ : RS PyCtx ω) (hr : RSR (renameIn a b) id (PyRen (renameIn a b) id S c) rs rs₂) (hg : GoodSt S rs.st) :
+    ∃ out', C07.Run env₂ clocks rs₂ out' ∧ List.Forall₂ (OutcomeR (renameIn a b) id) out out' := by
+  subst h1
+  refine rename_state_preserves_behaviour env.chart a b ht hren hne env env₂ h2 ?_ (hE₂ ▸ C07.pyEvaluator_memBlind) hw
+    clocks rs out hrun rs₂ hr hg
+  exact pyEnvR_rename id env { env₂ with chart := env.chart.mapNames (renameIn a b) } hok
+    (isRen_mapNames _ _) hnames hinit (fun i j _ _ e => e) hna hE hE₂ hi hf hd
+
+/-! non-vacuity of `Chart.NoActive`: a statechart with a guard, an action and a postcondition -/
+section PyExample
+def pyTrans : Trans :=
+  { id := 0
+    source := "a"
+    target := some "r"
+    event := some "e"
+    guard := some { src := "x + 1 > 0", expr := some (.cmp (.binop .add (.name "x") (.const (.int 1))) [(.gt, .const (.int 0))]) }
+    action := some { src := "x = x - 1", body := [.assign "x" (.binop .sub (.name "x") (.const (.int 1)))] }
+    post := [{ src := "x <= __old__.x", expr := some (.cmp (.name "x") [(.le, .attr (.name "__old__") "x")]) }] }
+def pyChart : Chart := { exChart with transitions := [pyTrans] }
+
+example : pyChart.NoActive where
+  guard := by
+    intro t ht g hg
+    simp only [pyChart, List.mem_singleton] at ht
+    subst ht
+    simp only [pyTrans, Option.some.injEq] at hg
+    subst hg
+    simp [Code.noActive, noActiveS, Expr.noActive, noActiveC]
+  action := by
+    intro t ht g hg
+    simp only [pyChart, List.mem_singleton] at ht
+    subst ht
+    simp only [pyTrans, Option.some.injEq] at hg
+    subst hg
+    simp [Code.noActive, noActiveS, Stmt.noActive, Expr.noActive]
+  onEntry := by
+    intro s hs a ha
+    simp only [pyChart, exChart, List.mem_cons, List.mem_nil_iff, or_false] at hs
+    rcases hs with rfl | rfl <;> simp at ha
+  onExit := by
+    intro s hs a ha
+    simp only [pyChart, exChart, List.mem_cons, List.mem_nil_iff, or_false] at hs
+    rcases hs with rfl | rfl <;> simp at ha
+  conds := by
+    intro obj hobj k code hc
+    cases obj with
+    | state s =>
+      simp only [ObjOf, pyChart, exChart, List.mem_cons, List.mem_nil_iff, or_false] at hobj
+      rcases hobj with rfl | rfl <;> cases k <;> simp [Obj.conds] at hc
+    | trans t =>
+      simp only [ObjOf, pyChart, List.mem_singleton] at hobj
+      subst hobj
+      cases k <;> simp [Obj.conds, pyTrans] at hc
+      subst hc
+      simp [Code.noActive, noActiveS, Expr.noActive, noActiveC]
+end PyExample
 
 /-- non-vacuity: a renaming of two of the names of a statechart that keeps their order, and is not
     order-preserving on other strings (`"b" ↦ "zz"` jumps over `"c"`) -/
